@@ -68,14 +68,21 @@ class Bisync:
                 role = 'root_a'
             elif kinds == {('param', 2)}:
                 role = 'root_b'
-            elif any(o.kind == 'call' and o.key == 'meta::discover_local_fingerprints' for o in os_):
-                # which root was scanned?
+            elif 'BTreeMap' in self.apply.local_ty(i + 1) and 'mut' not in self.apply.local_ty(i + 1) and \
+                    any(o.kind == 'call' and F.body(o.key) is not None for o in os_):
+                # a scan of one root: the result of a crate-local call that was given exactly one of the two roots
+                # (whatever the scanning function is called)
                 for o in os_:
-                    if o.kind == 'call' and o.key == 'meta::discover_local_fingerprints':
-                        ro = call_arg_origins(r, o.bb, 0)
-                        if all(x.kind == 'param' and x.key == 1 for x in ro):
+                    if o.kind == 'call' and F.body(o.key) is not None:
+                        t2 = self.run.blocks[o.bb]['term']
+                        given = set()
+                        for a2 in t2['args']:
+                            ro = [x for x in r.origins(a2) if x.kind != 'comb']
+                            if ro and all(x.kind == 'param' and x.key in (1, 2) and not x.path for x in ro):
+                                given |= {x.key for x in ro}
+                        if given == {1}:
                             role = 'a'
-                        elif all(x.kind == 'param' and x.key == 2 for x in ro):
+                        elif given == {2}:
                             role = 'b'
             elif any(o.kind == 'call' and o.key == 'std::iter::Iterator::next' for o in os_):
                 ty = self.apply.local_ty(i + 1)
@@ -150,6 +157,55 @@ class Bisync:
             if cfg.edges_guard(e, bb):
                 out.append(n)
         return out
+
+    def plan_is_reconcile_result(self, ctx, rid):
+        """The actions handed to apply are exactly what reconcile() returned: the collection the apply loop iterates derives
+        from the reconcile call only - nothing removes, filters or replaces entries in between (every non-Noop decision,
+        including the record-only ConvergeIdentical, reaches apply and therefore the recorded state)."""
+        r, R = self.rfl, self.run
+        at = R.blocks[self.apply_call_bb]['term']
+        act_op = at['args'][self.roles['act'] - 1]
+        nexts = [o for o in r.origins(act_op) if o.kind == 'call' and o.key == 'std::iter::Iterator::next']
+        if not nexts:
+            ctx.missing(rid, 'run_bisync: the plan iterator feeding apply')
+        ORDER_ONLY = ('sort', 'sort_by', 'sort_by_key', 'sort_unstable', 'sort_unstable_by', 'sort_unstable_by_key', 'reverse', 'shrink_to_fit', 'reserve')
+        PASS = ('std::iter::IntoIterator::into_iter', 'std::iter::Iterator::next', 'core::slice::<impl [T]>::iter', 'std::ops::Deref::deref',
+                'std::iter::Iterator::enumerate', 'std::iter::Iterator::by_ref')
+        bad = []
+        seen_reconcile = False
+        work = []
+        for n in nexts:
+            work.append(R.blocks[n.bb]['term']['args'][0])
+        visited = set()
+        while work:
+            op = work.pop()
+            for o in r.origins(op, mut_calls=True):
+                k = (o.kind, o.key, o.bb)
+                if k in visited or o.kind == 'comb':
+                    continue
+                visited.add(k)
+                if o.kind == 'call' and o.key == 'reconcile::reconcile':
+                    seen_reconcile = True
+                elif o.kind == 'call' and o.key in PASS:
+                    work.append(R.blocks[o.bb]['term']['args'][0])
+                elif o.kind == 'mutcall' and o.key in PASS:
+                    continue
+                elif o.kind == 'mutcall' and str(o.key).split('::')[-1] in ORDER_ONLY:
+                    continue
+                elif o.kind == 'mutcall' and o.key in ('std::ops::DerefMut::deref_mut', 'std::vec::Vec::<T, A>::as_mut_slice', 'std::convert::AsMut::as_mut'):
+                    # a &mut [T] view: judged by what is done with it
+                    dl = R.blocks[o.bb]['term']['dst']['l']
+                    for (ubb, uidx, role) in r._transitive_uses(dl):
+                        if uidx == 'term' and R.blocks[ubb]['term']['k'] == 'call' and role == 'arg:0':
+                            nm = (callee(R.blocks[ubb]['term']) or '?').split('::')[-1]
+                            if nm not in ORDER_ONLY and callee(R.blocks[ubb]['term']) not in PASS:
+                                bad.append((ubb, 'mutation through %s' % callee(R.blocks[ubb]['term'])))
+                else:
+                    bad.append((o.bb, '%s %s' % (o.kind, o.key)))
+        where = term_loc(R, bad[0][0]) if bad and bad[0][0] is not None else term_loc(R, self.apply_call_bb)
+        ctx.check(seen_reconcile and not bad, rid, 'run_bisync:plan-is-reconcile-result', 'the apply loop iterates the value reconcile() returned, unmodified',
+                  'the plan that is applied is not exactly what reconcile() decided: it passes through %s - decisions (e.g. the record-only '
+                  'ConvergeIdentical) can be dropped before apply, so the recorded state falls behind the trees' % sorted({d for _, d in bad})[:3], where)
 
     def every_success_records(self, ctx, rid):
         """Every non-error return of run_bisync that is not behind the dry_run true edge passes Archive::save: a run that
